@@ -123,6 +123,24 @@ def check_mode_list(buf, ten, hdr_vals, pages):
     return None
 
 
+def header_keys(ten):
+    """(key, largest value) for every entry of the library's mode parameter header table, from coq/Gen/summary.json"""
+    import json
+    import os
+    qual = "scsi_enum_modesense.mode_parameter_header%s_bits" % ("10" if ten else "6")
+    path = os.path.join(os.path.dirname(os.path.dirname(os.path.abspath(__file__))), "coq", "Gen", "summary.json")
+    out = []
+    for t in json.load(open(path))["tables"]:
+        if t["qual"] == qual:
+            for k, e in t["entries"]:
+                if e[0] == "mask" and e[1] > 0:
+                    m = e[1]
+                    while not m & 1:
+                        m >>= 1
+                    out.append((k, m))
+    return out or [("medium_type", 255), ("device_specific_parameter", 255)]
+
+
 # --------------------------------------------------------------------------------------------------------
 # all cases: dict(kind, ctor, args..., check=callable(cdb, dataout) -> None | str)
 
@@ -133,7 +151,8 @@ def cases(rng, n_each=8):
         # ---- MODE SELECT(6) / (10)
         for ten in (False, True):
             pgs = mode_pages(rng)
-            hv = dict(medium_type=rng.randrange(256), device_specific_parameter=rng.randrange(256))
+            # every key the library's own header table accepts is supplied (table regenerated from /repo on this run)
+            hv = {k: rng.randrange(hi + 1) for k, hi in header_keys(ten)}
             data = dict(hv, mode_pages=[p[0] for p in pgs])
             pf, sp = rng.randrange(2), rng.randrange(2)
 
